@@ -28,7 +28,7 @@ LEVEL_TEXT = ('Coq theorems over an executable Gallina model of schedule.Schedul
 LEVEL_NOTE = ('Trusted: Coq kernel, gen_tables.py, extraction + OCaml driver, the Python harness; heapq enters as an oracle whose contract '
               '(pop returns a minimal-time entry) is checked on every differential case; Lock/threads not modelled; Python code is modelled, not verified.')
 TECHNIQUE = 'Coq proof (state invariant preserved by every primitive, induction over action terms / loop fuel / histories) + regenerated table + extracted-model differential correspondence'
-EXPLANATION = 'C18: model of src/schedule.py in coq/C18/Model.v; invariant proofs in coq/C18/Lemmas.v; theorems in coq/C18/Props.v'
+EXPLANATION = 'C18 (scheduler + Scheduler plugin across reload/restart: coq/C18/PModel.v, PProofs.v): model of src/schedule.py in coq/C18/Model.v; invariant proofs in coq/C18/Lemmas.v; theorems in coq/C18/Props.v'
 
 CAP = 150          # calls of event functions per history before it is discarded as non-terminating
 FUEL = 400
@@ -497,8 +497,269 @@ CORPUS = [
 ]
 
 
+# ---------------------------------------------------------------- the Scheduler plugin across reload / restart
+_PL = {}
+
+
+class _StubIrc:
+    """what the wrapped plugin commands need from their irc argument"""
+    network = 'test'
+    nested = 0
+
+    def __init__(self):
+        self.out = []
+
+    def replySuccess(self, *a, **k):
+        self.out.append('ok')
+
+    def reply(self, *a, **k):
+        self.out.append('reply')
+
+    def error(self, *a, **k):
+        self.out.append('error')
+        if k.get('Raise'):
+            import supybot.callbacks as callbacks
+            raise callbacks.Error()
+
+
+def _plugin_world():
+    if _PL:
+        return _PL
+    boot.boot()
+    import supybot.schedule as sm, supybot.irclib as irclib, supybot.ircmsgs as ircmsgs, supybot.plugin as plugin
+    irc = irclib.Irc('test')
+    while irc.takeMsg() is not None:
+        pass
+    mod = plugin.loadPluginModule('Scheduler')
+    _PL.update(sm=sm, irc=irc, mod=mod, msg=ircmsgs.privmsg('#test', 'x', prefix='nick!u@h'))
+    return _PL
+
+
+class PTracker:
+    """the property text on what the plugin's user sees: every `scheduler add/remind` fires exactly once, after its time,
+    a removed event never fires, a repeat fires at most once per run() -- also across reload and restart"""
+
+    def __init__(self):
+        self.cmds = {}
+        self.epoch = 0
+        self.failures = []      # (focus, text)
+
+    def fail(self, text, focus='other'):
+        self.failures.append((focus, text))
+
+    def added(self, cmd, kind, due):
+        self.cmds[cmd] = dict(kind=kind, due=due, removed=False, runs=[], reloaded=False, run_ids=[])
+
+    def reloaded(self):
+        for c in self.cmds.values():
+            if not c['removed'] and not c['runs']:
+                c['reloaded'] = True
+
+    def fired(self, cmd, clock, runid):
+        c = self.cmds.get(cmd)
+        if c is None:
+            self.fail('command C%d ran but was never scheduled' % cmd)
+            return
+        if c['removed']:
+            self.fail('event C%d ran at clock %d although it was removed' % (cmd, clock))
+        if c['kind'] == 'single':
+            if clock <= c['due'] - 1 or clock < c['due']:
+                self.fail('event C%d due %d ran early at clock %d' % (cmd, c['due'], clock))
+            if c['runs']:
+                stale = c['reloaded'] and c['runs'][-1][1] < self.epoch     # epoch counts reloads and restarts
+                self.fail('one-shot event C%d ran again at clock %d (first run at clock %d)' % (cmd, clock, c['runs'][0][0]),
+                          'stale-after-reload' if stale else 'other')
+        elif runid in c['run_ids']:
+            self.fail('repeating event C%d ran twice in one run() at clock %d' % (cmd, clock))
+        c['runs'].append((clock, self.epoch))
+        c['run_ids'].append(runid)
+
+    def run_done(self, clock):
+        for cmd, c in sorted(self.cmds.items()):
+            if c['kind'] == 'single' and not c['removed'] and not c['runs'] and c['due'] < clock:
+                self.fail('event C%d due %d has not run when run() returned at clock %d' % (cmd, c['due'], clock))
+
+
+def run_plugin(ops):
+    """interpret a plugin history on the real Scheduler plugin + the real global Schedule; returns snaps + failures"""
+    W = _plugin_world()
+    sm, irc, mod, msg = W['sm'], W['irc'], W['mod'], W['msg']
+    import os
+    S = sm.schedule
+    clock = [0]
+    fake = types.SimpleNamespace(time=lambda: clock[0], sleep=lambda s: None)
+    log, tr = [], PTracker()
+    runid = [0]
+
+    class Rec:
+        def __init__(self, irc_, msg_, tokens):
+            cmd = int(tokens[-1][1:])
+            log.append([clock[0], cmd])
+            tr.fired(cmd, clock[0], runid[0])
+    saved = (sm.time, mod.plugin.time, mod.Class.__dict__.get('Proxy'))
+    sm.time, mod.plugin.time = fake, fake
+    mod.Class.Proxy = Rec
+    S.reset()
+    S.counter = 0
+    try:
+        os.remove(mod.plugin.filename)
+    except OSError:
+        pass
+    plug = mod.Class(irc)
+    ncmd = [0]
+    snaps = []
+
+    def drain():
+        while True:
+            m = irc.takeMsg()
+            if m is None:
+                return
+            if m.command == 'PRIVMSG' and 'Reminder: C' in m.args[1]:
+                cmd = int(m.args[1].split('Reminder: C')[1])
+                log.append([clock[0], cmd])
+                tr.fired(cmd, clock[0], runid[0])
+
+    def snap():
+        d = []
+        for k, ev in plug.events.items():
+            key = [0, int(k)] if k.isdigit() else [1, int(k[1:])]
+            c = int(ev['command'].split('C')[1])
+            if ev['type'] == 'single':
+                d.append([key, 0, ev['time'], c, 1 if ev['is_reminder'] else 0])
+            else:
+                d.append([key, 1, ev['time'], c, ev['first_run']])
+        sched = sorted([x[0], [0, x[1]] if isinstance(x[1], int) else [1, int(x[1][1:])]] for x in S.schedule)
+        snaps.append([d, sched, S.counter, clock[0], sorted(log)])
+    try:
+        for o in ops:
+            k = o[0]
+            st = _StubIrc()
+            try:
+                if k in ('padd', 'premind'):
+                    c = ncmd[0]
+                    ncmd[0] += 1
+                    if k == 'padd':
+                        plug.add(st, msg, [str(o[1]), 'echo C%d' % c])
+                    else:
+                        plug.remind(st, msg, [str(o[1]), 'C%d' % c])
+                    if 'ok' in st.out:
+                        tr.added(c, 'single', clock[0] + o[1])
+                elif k == 'prepeat':
+                    c = ncmd[0]
+                    ncmd[0] += 1
+                    name = 'r%d' % o[1]
+                    had = name in plug.events
+                    plug.repeat(st, msg, (['--delay', str(o[3])] if o[3] else []) + [name, str(o[2]), 'echo C%d' % c])
+                    if not had and name in plug.events:
+                        tr.added(c, 'repeat', clock[0] + o[3])
+                elif k == 'premove':
+                    key = str(o[1][1]) if o[1][0] == 'a' else 'r%d' % o[1][1]
+                    listed = plug.events.get(key)
+                    plug.remove(st, msg, [key])
+                    if listed is not None and 'ok' in st.out:
+                        tr.cmds[int(listed['command'].split('C')[1])]['removed'] = True
+                elif k == 'reload':
+                    plug.die()
+                    tr.reloaded()
+                    tr.epoch += 1
+                    plug = mod.Class(irc)
+                elif k == 'restart':
+                    plug.die()
+                    S.reset()
+                    S.counter = 0
+                    tr.epoch += 1
+                    plug = mod.Class(irc)
+                elif k == 'adv':
+                    clock[0] += o[1]
+                elif k == 'run':
+                    runid[0] += 1
+                    S.run()
+                    drain()
+                    tr.run_done(clock[0])
+            except Exception as e:
+                if type(e).__name__ not in ('Error', 'AssertionError'):
+                    tr.fail('%s raised %s: %s' % (k, type(e).__name__, e))
+            drain()
+            snap()
+    finally:
+        try:
+            plug.die()
+        except Exception:
+            pass
+        S.reset()
+        S.counter = 0
+        sm.time, mod.plugin.time = saved[0], saved[1]
+        if saved[2] is None:
+            del mod.Class.Proxy
+        else:
+            mod.Class.Proxy = saved[2]
+    return dict(snaps=snaps, failures=tr.failures)
+
+
+def w_pop(o):
+    k = o[0]
+    if k == 'padd':
+        return [0, o[1]]
+    if k == 'premind':
+        return [1, o[1]]
+    if k == 'prepeat':
+        return [2, o[1], o[2], o[3]]
+    if k == 'premove':
+        return [3, w_name(o[1])]
+    return {'reload': [4], 'restart': [5], 'run': [7]}.get(k) or [6, o[1]]
+
+
+def d_psnap(v):
+    return [[list(x) for x in v[0]], sorted(v[1]), v[2], v[3], sorted(list(x) for x in v[4])]
+
+
+def g_plugin_history(rng):
+    ops = []
+    for _ in range(rng.randint(3, 12)):
+        r = rng.random()
+        if r < 0.22:
+            ops.append(['padd', rng.choice([1, 2, 3, 5, 8, 20])])
+        elif r < 0.32:
+            ops.append(['premind', rng.choice([1, 2, 4, 9])])
+        elif r < 0.42:
+            ops.append(['prepeat', rng.choice([0, 0, 1]), rng.choice([2, 3, 5, 7, 12]), rng.choice([0, 0, 2, 6])])
+        elif r < 0.52:
+            ops.append(['premove', ['a', rng.choice([0, 0, 1, 2, 3])] if rng.random() < 0.7 else ['n', rng.choice([0, 1])]])
+        elif r < 0.66:
+            ops.append(['reload'])
+        elif r < 0.72:
+            ops.append(['restart'])
+        elif r < 0.88:
+            ops.append(['adv', rng.choice([1, 2, 3, 4, 6, 10])])
+        else:
+            ops.append(['run'])
+    ops += [['adv', 30], ['run']]
+    return ops
+
+
+PCORPUS = [
+    # the reload scenario of mutation C18_8: two one-shots pending, reload, remove one by its listed id, let time pass
+    [['padd', 5], ['padd', 5], ['reload'], ['premove', ['a', 1]], ['adv', 6], ['run'], ['adv', 6], ['run']],
+    [['padd', 3], ['premind', 4], ['prepeat', 0, 5, 0], ['reload'], ['reload'], ['adv', 6], ['run'], ['adv', 6], ['run']],
+    [['prepeat', 0, 3, 2], ['adv', 3], ['run'], ['reload'], ['adv', 4], ['run'], ['premove', ['n', 0]], ['adv', 9], ['run']],
+    [['padd', 9], ['padd', 2], ['adv', 3], ['run'], ['restart'], ['padd', 1], ['adv', 7], ['run']],
+    # finding C18.F24: reload, the event fires (old closure, stale entry in the new instance), restart: it runs again
+    [['padd', 2], ['reload'], ['adv', 3], ['run'], ['restart'], ['adv', 1], ['run']],
+]
+
+
 # ---------------------------------------------------------------- check
-CLASSES = {}      # no known finding: C18.F17 (rescheduleEvent dropped args/kwargs) is fixed; its witnesses lead CORPUS
+def _reload_then_restart(pops):
+    """a reload, later another reload or a restart"""
+    kinds = [o[0] for o in pops if o[0] in ('reload', 'restart')]
+    return 'reload' in kinds and len(kinds[kinds.index('reload'):]) >= 2
+
+
+# C18.F17 (rescheduleEvent dropped args/kwargs) is fixed; its witnesses lead CORPUS.
+# C18.F24: after an in-process reload of the Scheduler plugin a one-shot event fires through the closure of the dead
+# instance, which deletes it from the dead instance's dict only: it stays in the new instance's dict and pickle and is
+# scheduled -- and run -- again by the next reload or restart.
+CLASSES = {'stale_after_reload': lambda inp: inp.get('focus') == 'stale-after-reload' and _reload_then_restart(inp.get('pops', []))}
 
 
 def judge(ctx, ops, impl):
@@ -551,6 +812,36 @@ def run(ctx):
         if mo is not None:
             compare(ctx, ops, impl, mo)
     ctx.notes.append('heappop oracle: every real pop was checked to be of minimal time by the model (obad flag)')
+    # ---- the Scheduler plugin on top: add / remind / repeat / remove / reload / restart / time passing
+    pcases = [(ops, 'plugin-corpus') for ops in PCORPUS] + [(g_plugin_history(rng), 'plugin') for _ in range(ctx.n(1200))]
+    pdone = []
+    for pops, kind in pcases:
+        impl = run_plugin(pops)
+        kinds = [o[0] for o in pops]
+        ctx.case(kind + ('-reload' if 'reload' in kinds else '') + ('-restart' if 'restart' in kinds else ''), {'pops': pops},
+                 nontrivial='run' in kinds)
+        seen = set()
+        for focus, text in impl['failures']:
+            if focus not in seen:
+                seen.add(focus)
+                if focus == 'stale-after-reload':
+                    ctx.known_reported = getattr(ctx, 'known_reported', 0) + 1
+                    if ctx.known_reported > 200:
+                        continue
+                ctx.fail({'pops': pops, 'focus': focus}, text)
+        pdone.append((pops, impl))
+    pouts = ctx.model([[[], [w_pop(o) for o in pops]] for pops, _ in pdone])
+    for (pops, impl), mo in zip(pdone, pouts):
+        if mo is None:
+            continue
+        if isinstance(mo, tuple):
+            ctx.disagree({'pops': pops}, mo[1], None, 'plugin model error')
+            continue
+        ms = [d_psnap(v) for v in mo]
+        for i, (a, b) in enumerate(zip(ms, impl['snaps'])):
+            if a != b:
+                ctx.disagree({'pops': pops}, a, b, 'Scheduler plugin state after op %d %r' % (i, pops[i][0]))
+                break
 
 
 def has_ties(impl):
@@ -562,6 +853,12 @@ def has_ties(impl):
 
 
 def replay(ctx, inp):
+    if 'pops' in inp:
+        want = inp.get('focus')
+        for focus, text in run_plugin(inp['pops'])['failures']:
+            if want is None or want == focus:
+                return text
+        return None
     impl = run_impl(inp['ops'])
     if impl is None or not impl['failures']:
         return None
@@ -569,5 +866,9 @@ def replay(ctx, inp):
 
 
 def shrink(ctx, inp):
+    if 'pops' in inp:
+        focus = inp.get('focus')
+        small = shrink_seq(inp['pops'], lambda ops: replay(ctx, {'pops': ops, 'focus': focus}) is not None)
+        return {'pops': small, 'focus': focus}
     small = shrink_seq(inp['ops'], lambda ops: replay(ctx, {'ops': ops}) is not None)
     return {'ops': small}
